@@ -35,7 +35,9 @@ fn profile_weights(prop: &str) -> [u32; 10] {
         "C03" => [8, 6, 14, 10, 6, 4, 16, 10, 0, 26],
         "C04" => [0, 5, 5, 80, 5, 0, 5, 0, 0, 0],
         "C05" => [5, 5, 0, 30, 5, 5, 5, 0, 45, 0],
-        "C06" => [0, 0, 0, 0, 0, 100, 0, 0, 0, 0],
+        // mostly churn; a share of long re-add / static-reads / cross-group histories (edges that outlive
+        // their target, ids re-created and re-bound: seeded change C06-I)
+        "C06" => [0, 0, 0, 10, 10, 70, 10, 0, 0, 0],
         "C08" | "C10" => [5, 8, 8, 8, 5, 0, 8, 8, 50, 0],
         "C18" | "C20" => [5, 5, 5, 10, 5, 0, 15, 10, 40, 5],
         "C13" => [10, 5, 0, 5, 0, 0, 30, 20, 15, 15],
